@@ -654,7 +654,30 @@ def j_rules(p: Project, rep: Report):
         if unknown_flow or not rs:
             rep.note(f"J-R1 undecided: {fname}: cannot follow every built request to client.request_statements()")
         else:
-            ok = len(lists) == 1 and all(any(isinstance(a, ast.Starred) and text(a.value) in lists for a in c.args) and c.args and text(c.args[0]) == "password" for c in rs)
+            fdefs = local_defs(fn)
+
+            def feeds(name, depth=4, seen=None):
+                """names of the lists whose members end up in the list `name` (through [*a, *b], a + b, list(a), += )"""
+                seen = seen if seen is not None else set()
+                if name in seen or depth <= 0:
+                    return set()
+                seen.add(name)
+                out = {name}
+                for d in fdefs.get(name, []):
+                    v = d.stmt.value if d.kind == "augassign" else d.value
+                    if not isinstance(v, ast.AST):
+                        continue
+                    for x in ast.walk(v):
+                        if isinstance(x, ast.Name) and x.id != name and x.id in fdefs and any(isinstance(dd.value, (ast.List, ast.ListComp, ast.BinOp, ast.Call)) or dd.kind == "augassign" for dd in fdefs[x.id]):
+                            out |= feeds(x.id, depth - 1, seen)
+                return out
+
+            ok = bool(rs)
+            for c in rs:
+                starred = [text(a.value) for a in c.args if isinstance(a, ast.Starred)]
+                sent = set().union(*[feeds(n_) for n_ in starred]) if starred else set()
+                if not (lists <= sent and c.args and text(c.args[0]) == "password"):
+                    ok = False
             rep.check("J-R1", f"{fname}:passes-all-built-requests", ok, "" if ok else "the requests built are not all passed to client.request_statements(password, *requests, ...)", gloc(p, fn0))
         # --all: discovered accounts merged before the lists are read
         fcfg = CFG(fn)
